@@ -1,6 +1,7 @@
 package verifsim
 
 import (
+	"time"
 	"bytes"
 	"context"
 	"fmt"
@@ -60,6 +61,7 @@ type RawSrvParams struct {
 	Hostile bool        `json:"hostile"` // sequences are arbitrary (C13); otherwise valid foreign conversations (C03, C05)
 	Close   bool        `json:"close"`   // fail the client's reads at the end
 	CloseErr int        `json:"close_err,omitempty"` // which error the client's Read reports when the connection ends
+	Expire  bool        `json:"expire,omitempty"` // unary calls of the scenario carry a short deadline and have given up before the peer answers (C11: a peer that sends more than expected)
 	ResetOK bool        `json:"reset_ok,omitempty"` // a peer that fills an explicit OK status into every envelope, resets included: a reset still is a failure
 	NilKV   bool        `json:"nil_kv,omitempty"` // every metadata list the peer sends has a nil entry appended (by-reference links only)
 	Enum    int         `json:"enum,omitempty"` // >0: Seq is the idx-th sequence of that length in the bounded enumeration
@@ -205,6 +207,7 @@ func genRawHostile(g *rand.Rand, tier string) any {
 	p.Links[0].Cap, p.Links[1].Cap = -1, -1
 	p.NilKV = g.IntN(8) == 0
 	p.ResetOK = g.IntN(4) == 0
+	p.Expire = g.IntN(4) == 0
 	for i := 0; i < 2; i++ {
 		c := &CallSpec{ID: i + 1, MsgLen: 12}
 		if g.IntN(2) == 0 {
@@ -276,6 +279,9 @@ func execRawSrv(e *Env, pp any) {
 		if c == nil {
 			continue
 		}
+		if p.Expire && c.Kind == KUnary {
+			c.Timeout = time.Second
+		}
 		r := sim.Calls[c.ID]
 		e.Go(fmt.Sprintf("caller.c%d", c.ID), func() { sim.RunCall(cc, r) })
 	}
@@ -297,6 +303,17 @@ func execRawSrv(e *Env, pp any) {
 	}
 	if !all() {
 		e.Note("requests.not.all.out")
+	}
+	if p.Expire {
+		// the unary callers give up (their deadline passes) before the peer says anything
+		e.Advance(2 * time.Second)
+		e.NoAutoAdvance = true
+		if r := e.Drive(nil); r == Crashed || r == StepLimit {
+			e.NoAutoAdvance = false
+			return
+		}
+		e.NoAutoAdvance = false
+		e.Note("fault.ctx.deadline")
 	}
 	// what each id was sent (for the fabricated-success oracle)
 	sent := map[int][][]byte{}
@@ -390,6 +407,7 @@ func execRawSrv(e *Env, pp any) {
 			e.Violate("C13", "probe-not-sent", "unary.later-call", "a unary call made after the hostile sequence never put its request on the transport\n%s", e.WaitGraph())
 		case !pr.Returned:
 			e.Violate("C13", "hang", "unary.later-call", "a unary call made after the hostile sequence and answered properly by the peer has not returned\n%s", e.WaitGraph())
+			e.Violate("C11", "hang", "peer-sends-more-than-expected", "an RPC started after a peer sent more than expected (to finished, abandoned or unknown calls) has not completed\n%s", e.WaitGraph())
 		case pr.InvokeErr != nil:
 			e.Violate("C13", "later-call-failed", "unary.later-call", "a unary call made after the hostile sequence and answered properly by the peer failed: %v", pr.InvokeErr)
 		case !bytes.Equal(pr.InvokeResp, MakePayload(90, 'h', 0, 12)):
@@ -618,6 +636,6 @@ func genRawHostileAt(idx uint64, g *rand.Rand, tier string) any {
 func init() {
 	Register(&Family{Name: "raw.foreign", ShrinkKeys: []string{"seq"}, Props: []string{"C03", "C05"}, New: func() any { return &RawSrvParams{} }, Gen: genRawValid, Exec: execRawSrv,
 		Faulty: true, FaultKinds: []string{"link.readFail"}})
-	Register(&Family{Name: "raw.hostile-server", ShrinkKeys: []string{"seq"}, Props: []string{"C13"}, New: func() any { return &RawSrvParams{} }, Gen: genRawHostile, GenAt: genRawHostileAt, Exec: execRawSrv,
+	Register(&Family{Name: "raw.hostile-server", ShrinkKeys: []string{"seq"}, Props: []string{"C13", "C11"}, New: func() any { return &RawSrvParams{} }, Gen: genRawHostile, GenAt: genRawHostileAt, Exec: execRawSrv,
 		Faulty: true, FaultKinds: []string{"peer.malformed", "link.readFail"}})
 }
